@@ -111,9 +111,14 @@ impl UnitResult {
         }
     }
     pub fn violate(&mut self, sig: impl Into<String>, what: impl Into<String>, case: Value) {
-        if self.violations.len() < 200 {
+        let sig = sig.into();
+        // cap per signature family (first two '|'-separated parts) so that a flood of one
+        // defect cannot crowd out a different one; drops are counted, never silent
+        let fam: String = sig.split('|').take(2).collect::<Vec<_>>().join("|");
+        let n = self.violations.iter().filter(|v| v.sig.split('|').take(2).collect::<Vec<_>>().join("|") == fam).count();
+        if n < 400 && self.violations.len() < 20000 {
             self.violations.push(Violation {
-                sig: sig.into(),
+                sig,
                 what: what.into(),
                 case,
             });
@@ -126,9 +131,7 @@ impl UnitResult {
         self.nontrivial += o.nontrivial;
         self.inconclusive += o.inconclusive;
         for v in o.violations {
-            if self.violations.len() < 200 {
-                self.violations.push(v);
-            }
+            self.violate(v.sig, v.what, v.case);
         }
         for s in o.samples {
             self.sample(s);
